@@ -10,4 +10,4 @@ for p in "$@"; do
   done
   git -C /repo worktree remove --force /tmp/mut2-$p && rm -rf /tmp/mut2-$p-out
 done
-rm -rf work/alt-*
+
